@@ -319,6 +319,18 @@ def in_corner(sub):
     return hbp == cbp and cbp >= sub["temperature_constraints"]["T_max"] and (bh != 0 or bc != 0)
 
 
+CROSSED = "bp_h' > bp_c' by rounding, sum pct_k >= 1"
+
+
+def is_crossed(sub):
+    """ordered stored balance points whose shifted images cross in binary64 (over the reals they meet exactly when the
+    smoothing fractions add up to one or more); the kernel then swaps the two sides"""
+    if sub["coefficients"]["model_type"] != "hdd_tidd_cdd_smooth":
+        return False
+    hbp, bh, kh, cbp, bc, kc = eff_vector(sub)
+    return hbp > cbp
+
+
 def hinge(d, k, ln_min):
     d = max(d, 0.0)
     if k == 0:
@@ -335,14 +347,15 @@ def closed_form(sub, T, ln_min):
 
 
 def temp_grid(sub, rng):
+    """temperatures -60..140 F: far outside the fitted range, the range ends, exactly on / one ulp around every
+    (stored and shifted) balance point, two random ones"""
     c, tc = sub["coefficients"], sub["temperature_constraints"]
-    pts = {-60.0, -20.0, 0.0, 32.0, 50.0, 65.0, 80.0, 100.0, 140.0, tc["T_min"], tc["T_max"], tc["T_min_seg"], tc["T_max_seg"],
-           tc["T_max"] + 1.0, tc["T_min"] - 1.0}
+    pts = {-60.0, 140.0, tc["T_min"], tc["T_max"], tc["T_max"] + 1.0, tc["T_min"] - 1.0, rng.choice([0.0, 32.0, 50.0, 65.0, 80.0, 100.0])}
     hbp, bh, kh, cbp, bc, kc = eff_vector(sub)
-    for b in (c["hdd_bp"], c["cdd_bp"], hbp, cbp):
-        if b is not None and math.isfinite(b):
-            pts.update([b, b - 0.5, b + 0.5, float(np.nextafter(b, -np.inf)), float(np.nextafter(b, np.inf))])
-    for _ in range(4):
+    for b in {c["hdd_bp"], c["cdd_bp"], hbp, cbp} - {None}:
+        if math.isfinite(b):
+            pts.update([b, float(np.nextafter(b, -np.inf)), float(np.nextafter(b, np.inf)), b + rng.choice([-0.5, 0.5, -3.0, 3.0])])
+    for _ in range(2):
         pts.add(rng.uniform(-60, 140))
     return sorted(pts)
 
@@ -440,7 +453,7 @@ def generic_path(p):
     return "/".join(out)
 
 
-def roundtrip_obs(cls, m, predict_sets, predict_kwargs=None, cols=None):
+def roundtrip_obs(cls, m, predict_sets, predict_kwargs=None, snapshot=None):
     """The statement's observations on one model object m of class cls (implementation against itself):
     serialise, reload, serialise again, predict on both.  Returns a plain dict."""
     predict_kwargs = predict_kwargs or {}
@@ -449,7 +462,7 @@ def roundtrip_obs(cls, m, predict_sets, predict_kwargs=None, cols=None):
         js = m.to_json()
     except Exception as e:
         obs["dump_error"] = "%s: %s" % (type(e).__name__, str(e)[:200])
-        return obs, None, None
+        return obs, None, None, None
     obs["js_len"] = len(js)
     try:
         with quiet():
@@ -457,7 +470,13 @@ def roundtrip_obs(cls, m, predict_sets, predict_kwargs=None, cols=None):
     except Exception as e:
         obs["load_error"] = "%s: %s" % (type(e).__name__, str(e)[:300].replace("\n", " "))
         obs["load_error_cls"] = type(e).__name__
-        return obs, js, None
+        return obs, js, None, None
+    if snapshot is not None:
+        try:
+            obs["_state2"] = snapshot(m2)          # attributes of the reloaded object, before anything uses it
+        except Exception as e:
+            obs["_state2_error"] = "%s: %s" % (type(e).__name__, str(e)[:200])
+    js2 = None
     try:
         js2 = m2.to_json()
         obs["text_equal"] = js2 == js
@@ -514,7 +533,7 @@ def roundtrip_obs(cls, m, predict_sets, predict_kwargs=None, cols=None):
             r["errors"] = [a if k1 == "err" else None, b if k2 == "err" else None]
         preds.append(r)
     obs["predict"] = preds
-    return obs, js, m2
+    return obs, js, m2, js2
 
 
 def oracle_roundtrip(obs, sig0):
@@ -606,14 +625,15 @@ def run_docs(cases, seed):
                     e, eh, ec = closed_form(sub, t, ln_min)
                     if not (abs(p - e) <= 1e-9 * scale and abs(h - eh) <= 1e-9 * scale and abs(c - ec) <= 1e-9 * scale):
                         cf_fail.append({"key": key, "shape": sub["coefficients"]["model_type"], "T": t, "predicted": [p, h, c],
-                                        "formula": [e, eh, ec], "corner": in_corner(sub),
+                                        "formula": [e, eh, ec], "corner": in_corner(sub), "crossed": is_crossed(sub),
                                         "above_T_max": t > sub["temperature_constraints"]["T_max"]})
                         break
             o["preds"] = preds
             o["closed_form_fail"] = cf_fail
-            sets = [("sweep", lambda: daily_data(case["cls"], doc["info"]["baseline_timezone"])[0]),
-                    ("year", lambda: daily_data(case["cls"], doc["info"]["baseline_timezone"])[1])]
-            o["rt"], _, _ = roundtrip_obs(cls, M, sets, {"ignore_disqualification": True})
+            sets = [("sweep", lambda: daily_data(case["cls"], doc["info"]["baseline_timezone"])[0])]
+            if case["k"] % 3 == 0 or len(doc["submodels"]) > 2:
+                sets.append(("year", lambda: daily_data(case["cls"], doc["info"]["baseline_timezone"])[1]))
+            o["rt"] = roundtrip_obs(cls, M, sets, {"ignore_disqualification": True})[0]
         except Exception as e:
             o["crash"] = "%s: %s" % (type(e).__name__, traceback.format_exc()[-600:])
         out.append(o)
@@ -638,18 +658,17 @@ def coq_tc(tc):
     return "(Build_tconstr F %s %s %s %s)" % tuple(fhex(tc[k]) for k in TCKEYS)
 
 
-def coq_warning(w):
-    return "{| w_name := %s; w_desc := %s; w_data := %s |}" % (coq_string(w["qualified_name"]), coq_string(w["description"]),
-                                                               cjson(w["data"]))
+def coq_warning(w, sh):
+    return "{| w_name := %s; w_desc := %s; w_data := %s |}" % (sh.s(w["qualified_name"]), sh.s(w["description"]), sh.json(w["data"]))
 
 
-def coq_daily_state(st):
+def coq_daily_state(st, sh):
     """st: {"subs": [(key, coefficients, tc, f_unc)], "error", "tz", "dq", "warnings", "settings" (Gallina term)}"""
     subs = coq_list(["{| sm_key := %s; sm_c := %s; sm_tc := %s; sm_func := %s |}" % (
-        coq_string(k), coq_coeffs(c), coq_tc(tc), fhex(u)) for k, c, tc, u in st["subs"]])
+        sh.s(k), coq_coeffs(c), coq_tc(tc), fhex(u)) for k, c, tc, u in st["subs"]])
     return "{| ds_subs := %s; ds_error := %s; ds_tz := %s; ds_dq := %s; ds_warnings := %s; ds_settings := %s |}" % (
-        subs, cjson(st["error"]), coq_string(st["tz"]), coq_list([coq_warning(w) for w in st["dq"]]),
-        coq_list([coq_warning(w) for w in st["warnings"]]), st["settings"])
+        subs, sh.json(st["error"]), sh.s(st["tz"]), coq_list([coq_warning(w, sh) for w in st["dq"]]),
+        coq_list([coq_warning(w, sh) for w in st["warnings"]]), st["settings"])
 
 
 def coq_prow(r):
@@ -657,20 +676,46 @@ def coq_prow(r):
 
 
 class Shared:
-    """big sub-terms (settings trees) shared through prelude definitions"""
+    """big sub-terms (settings trees) and every string shared through prelude definitions: a string literal is a
+    tree of 9 constructors per character for Coq's elaborator, a constant is one node"""
     def __init__(self, prefix):
         self.prefix = prefix
         self.defs = {}
+        self.strings = {}
+
+    def s(self, text):
+        if text not in self.strings:
+            self.strings[text] = "s%s_%d" % (self.prefix, len(self.strings))
+        return self.strings[text]
+
+    def json(self, o):
+        """python JSON value -> Gallina json term with interned strings"""
+        if o is None:
+            return "JNull"
+        if isinstance(o, bool):
+            return "(JBool %s)" % coq_bool(o)
+        if isinstance(o, int):
+            return "(JInt %s)" % zlit(o)
+        if isinstance(o, float):
+            return "(JNum %s)" % fhex(o)
+        if isinstance(o, str):
+            return "(JStr %s)" % self.s(o)
+        if isinstance(o, (list, tuple)):
+            return "(JArr %s)" % coq_list([self.json(x) for x in o])
+        if isinstance(o, dict):
+            return "(JObj %s)" % coq_list(["(%s, %s)" % (self.s(str(k)), self.json(v)) for k, v in o.items()])
+        raise ValueError("not a JSON value: %r" % (o,))
 
     def name(self, obj):
         key = vlib.sha(json.dumps(obj, sort_keys=False))
         nm = "%s_%s" % (self.prefix, key)
         if nm not in self.defs:
-            self.defs[nm] = "Definition %s : json := %s." % (nm, cjson(obj))
+            self.defs[nm] = "Definition %s : json := %s." % (nm, self.json(obj))
         return nm
 
     def prelude(self):
-        return "\n".join(self.defs.values())
+        strs = "\n".join("Definition %s : string := %s." % (nm, coq_string(text)) for text, nm in self.strings.items())
+        return strs + "\n" + "\n".join(self.defs.values())
 
 
 def coq_doc_with_shared(doc, shared):
@@ -678,7 +723,7 @@ def coq_doc_with_shared(doc, shared):
     parts = []
     for k, v in doc.items():
         if k == "settings" and isinstance(v, dict):
-            parts.append("(%s, %s)" % (coq_string(k), shared.name(v)))
+            parts.append("(%s, %s)" % (shared.s(k), shared.name(v)))
         else:
-            parts.append("(%s, %s)" % (coq_string(k), cjson(v)))
+            parts.append("(%s, %s)" % (shared.s(k), shared.json(v)))
     return "(JObj %s)" % coq_list(parts)
